@@ -88,13 +88,19 @@ static double symNum(int attr)
 }
 static void addUnitTo(const UnitsPtr &u)
 {
-    u->addUnit(sym(1, 'r'), sym(2, 'p'), symNum(3), symNum(4), sym(5, 'i'));
+    // one input per statement: the order of evaluation of call arguments differs between compilers
+    std::string ref = sym(1, 'r');
+    std::string pre = sym(2, 'p');
+    double ex = symNum(3);
+    double mu = symNum(4);
+    std::string uid = sym(5, 'i');
+    u->addUnit(ref, pre, ex, mu, uid);
 }
 static UnitsPtr mkUnits()
 {
     auto u = Units::create(sym(6, 'u'));
     u->setId(sym(7, 'i'));
-    u->addUnit(sym(1, 'r'), sym(2, 'p'), symNum(3), symNum(4), sym(5, 'i'));
+    addUnitTo(u);
     return u;
 }
 
